@@ -1,6 +1,7 @@
 import Pyrtma.Drv.Validators
 import Pyrtma.Spec.Serial
 import Pyrtma.Model.Json
+import Pyrtma.Model.Heap
 /-! Line-protocol driver for M5 (grammar: harness/serial_corr.py). -/
 namespace Pyrtma.Drv.Serial
 open Pyrtma.Validators Pyrtma.Serial Pyrtma.Json Pyrtma.Drv Pyrtma.Drv.Validators
@@ -104,8 +105,44 @@ structure FdProbe where
 /-- hex of ASCII text -> characters -/
 def hexText (h : String) : List Char := (hexBytes h).map Char.ofNat
 
+/-! ### storage scripts (grammar: harness/serial_corr.py, `HOP` / `HRD`) -/
+inductive HOp
+  | new (cls : Nat) (b : Bytes)
+  | copyAs (cls size src : Nat) (fails : Bool)
+  | view (src off size cls : Nat)
+  | write (dst off : Nat) (data : Bytes)
+  | msgCopy (hdr data : Nat)
+
+structure HSt where
+  st : Pyrtma.Heap.St := {}
+  objs : Array Pyrtma.Heap.Obj := #[]
+  bad : List String := []
+
+def HSt.step (h : HSt) (k : Nat) (op : HOp) : HSt :=
+  let obj := fun (i : Nat) => h.objs.getD i { cls := 0, ref := ⟨0, 0, 0⟩ }
+  match op with
+  | .new cls b => let p := h.st.alloc b; { h with st := p.1, objs := h.objs.push { cls := cls, ref := p.2 } }
+  | .copyAs cls size src fails =>
+    match h.st.copyAs cls size (obj src).ref, fails with
+    | some (s', c), false => { h with st := s', objs := h.objs.push c }
+    | none, true => h
+    | some _, true => { h with bad := s!"op {k}: the model copies, the implementation raised" :: h.bad }
+    | none, false => { h with bad := s!"op {k}: the model refuses the copy, the implementation made one" :: h.bad }
+  | .view src off size cls =>
+    match Pyrtma.Heap.view (obj src).ref off size with
+    | some r => { h with objs := h.objs.push { cls := cls, ref := r } }
+    | none => { h with bad := s!"op {k}: view outside the object" :: h.bad }
+  | .write dst off data => { h with st := h.st.write (obj dst).ref off data }
+  | .msgCopy hd dt =>
+    match h.st.msgCopy (obj hd) (obj dt) with
+    | some (s', h', d') => { h with st := s', objs := (h.objs.push h').push d' }
+    | none => { h with bad := s!"op {k}: the model refuses Message.copy" :: h.bad }
+
 structure Case where
   id : String := ""
+  hops : List HOp := []
+  /-- object id, class tag, bytes: what the implementation reads at the end of the script -/
+  hreads : List (Nat × Nat × Bytes) := []
   /-- float bit pattern -> the token Python's `json` writes for it -/
   ftoks : List (Nat × List Char) := []
   jmin : Option (List Char) := none
@@ -214,8 +251,24 @@ def jsonCorr (c : Case) : List String :=
       textCorr c.id "msgJsonMin" none msg c.hjmin ++ textCorr c.id "msgJsonPretty" (some 2) msg c.hjpretty
   | _ => []
 
+/-- the storage script replayed in the heap model: every object the implementation holds at the end has the class and
+the bytes the model predicts (copies are fresh buffers, views share) -/
+def heapCorr (c : Case) : List String :=
+  if c.hops.isEmpty then [] else
+    let ops := c.hops.reverse
+    let h := (ops.zip (List.range ops.length)).foldl (fun (h : HSt) (p : HOp × Nat) => h.step p.2 p.1) {}
+    let bad := h.bad.reverse.map fun b => s!"{c.id} CORR diff heap {b}"
+    let rd := c.hreads.reverse.flatMap fun (i, cls, ib) =>
+      match h.objs[i]? with
+      | none => [s!"{c.id} CORR diff heap object {i}: not in the model"]
+      | some o =>
+        let mb := h.st.read o.ref
+        if o.cls != cls then [s!"{c.id} CORR diff heap object {i}: class model={o.cls} impl={cls}"]
+        else if mb == ib then [] else [s!"{c.id} CORR diff heap object {i} model=[{showHex mb}] impl=[{showHex ib}]"]
+    bad ++ rd
+
 def finish (c : Case) : List String :=
-  let diffs := wholeCorr c ++ jsonCorr c ++ c.leaves.reverse.flatMap (leafCorr c)
+  let diffs := wholeCorr c ++ jsonCorr c ++ heapCorr c ++ c.leaves.reverse.flatMap (leafCorr c)
   let corr := if diffs.isEmpty then [s!"{c.id} CORR ok"] else diffs.take 3
   let o : Pyrtma.Serial.Obs := { orig := c.b0, trips := c.trips, copyShares := c.copyShares, vers := c.vers }
   let prop := match firstFalse (Pyrtma.Serial.clauses o) with
@@ -231,6 +284,14 @@ def step (st : Case × List String) (line : String) : Case × List String :=
     (match splitBar r with
      | [ft, v] => ({ c with leaves := { off := natOf off, ty := ftyOf ft, val := valOf v } :: c.leaves }, out)
      | _ => (c, out))
+  | ["HOP", "N", cls, h] => ({ c with hops := .new (natOf cls) (hexBytes h) :: c.hops }, out)
+  | ["HOP", "C", cls, size, src] => ({ c with hops := .copyAs (natOf cls) (natOf size) (natOf src) false :: c.hops }, out)
+  | ["HOP", "CE", cls, size, src] => ({ c with hops := .copyAs (natOf cls) (natOf size) (natOf src) true :: c.hops }, out)
+  | ["HOP", "V", src, off, size, cls] =>
+    ({ c with hops := .view (natOf src) (natOf off) (natOf size) (natOf cls) :: c.hops }, out)
+  | ["HOP", "W", dst, off, h] => ({ c with hops := .write (natOf dst) (natOf off) (hexBytes h) :: c.hops }, out)
+  | ["HOP", "M", hd, dt] => ({ c with hops := .msgCopy (natOf hd) (natOf dt) :: c.hops }, out)
+  | ["HRD", i, cls, h] => ({ c with hreads := (natOf i, natOf cls, hexBytes h) :: c.hreads }, out)
   | ["FTOK", h, t] => ({ c with ftoks := (hexNat h, t.toList) :: c.ftoks }, out)
   | ["JMIN", h] => ({ c with jmin := some (hexText h) }, out)
   | ["JPRETTY", h] => ({ c with jpretty := some (hexText h) }, out)
